@@ -301,14 +301,14 @@ def cases(ctx):
                 if n % ctx.nshards == ctx.shard:
                     yield ('seq', start, seq)
                 n += 1
-    for _ in range(ctx.scale(250, 6000)):
+    for _ in range(ctx.scale(800, 8000)):
         ln = rnd.randint(3, 30)
         alphabet = rnd.choice([LO, DO, LO + DO])
         yield ('seq', rnd.choice('ABC'), tuple(rnd.choice(alphabet) for _ in range(ln)))
     # a host mapping whose own __missing__ inserts (defaultdict): lookups that are documented as non-inserting (get, in, keys, len, del, remove) must
     # behave as on the model; index reads and compound writes (which subscript, and so trigger the host's __missing__) are left out
     safe = [o for o in DO if o[0] in ('get', 'getd', 'din', 'dlen', 'keys', 'values', 'items', 'ddel', 'dremove', 'dwrite')]
-    for _ in range(ctx.scale(60, 1500)):
+    for _ in range(ctx.scale(200, 2000)):
         yield ('ddseq', rnd.choice('AC'), tuple(rnd.choice(safe) for _ in range(rnd.randint(2, 10))))
     for _ in range(ctx.scale(3, 40)):
         size = rnd.choice([9998, 9999, 10000, 10001])
